@@ -45,7 +45,25 @@ func (ex *Exec) stdModel(name string, fn *ssa.Function, args []Val, caller *fram
 		dst := args[1].(iface)
 		cb, ok := concreteBytes(data)
 		if !ok {
-			panic(unsupported{"json.Unmarshal of symbolic data"})
+			// few symbolic bytes inside a literal: one path per feasible value (decoding depends on the
+			// byte class in too many ways to merge); a longer symbolic text stays unsupported
+			nsym := 0
+			for _, b := range data {
+				if b.sym() {
+					nsym++
+				}
+			}
+			if nsym > 2 {
+				panic(unsupported{"json.Unmarshal of symbolic data"})
+			}
+			cb = make([]byte, len(data))
+			for i, b := range data {
+				if b.sym() {
+					cb[i] = byte(ex.choose(b))
+				} else {
+					cb[i] = byte(b.C)
+				}
+			}
 		}
 		p, okp := dst.v.(*Val)
 		if !okp || p == nil {
